@@ -1,6 +1,8 @@
 import UgoVerif.VM.Invoke
 import UgoVerif.Gen.VmFields
 import UgoVerif.Proofs.InvokeShift
+import UgoVerif.Proofs.ShiftLoop
+import UgoVerif.Proofs.GlobalsKeep
 /-
   C14 — calling a script function from Go (Invoker) equals calling it inside the script.
 
@@ -476,7 +478,7 @@ theorem invoke_eq_call_partial (F : FloatOps) (c p : State) (fa ci : Nat) (free 
 theorem return_shift (bp k : Nat) (r' : Ctl) (s' t' : State) (h : RetQ bp k .ret r' s' t') :
     r' = .next ∧ s'.heap = t'.heap ∧ s'.globals = t'.globals ∧ s'.modules = t'.modules ∧
     s'.err = none ∧ t'.err = none ∧ s'.frameIndex = 1 ∧ t'.frameIndex = k ∧ t'.sp = bp ∧ 1 ≤ s'.sp ∧
-    s'.stack[(s'.sp - 1).toNat]! = t'.stack[(t'.sp - 1).toNat]! := h.2
+    s'.stack[(s'.sp - 1).toNat]! = t'.stack[(t'.sp - 1).toNat]! ∧ t'.stack.size = stackSize := h.2
 
 /-- **result_value_deref** (the epilogue).  `Run` returns `stack[sp-1]` unless it is an `*ObjectPtr`, which
     it dereferences (vm.go:166-170) — the in-script caller gets the slot value as it is.  So after
@@ -562,5 +564,368 @@ theorem acquire_fields (root caller child : State) (callee : Addr) :
     c.consts = root.consts ∧ c.numModules = root.numModules ∧ c.modules = root.modules ∧
     c.noPanic = root.noPanic ∧ c.mainFn = callee ∧ c.heap = caller.heap := by
   simp [acquireFrom]
+
+/-! ### the real loop, the host-aware loop, the epilogue -/
+
+/-- **invoke_loop_partial.**  `invoke_eq_call_partial` for the child's real loop `loopF` (`loop()`: abort check before every
+    instruction): if it ends within `n` instructions without the VM having been aborted, it ended at its instruction
+    `m + 1` and the parent's instruction `m + 1` ends as `EndQ` says. -/
+theorem invoke_loop_partial (F : FloatOps) (bp k : Nat) (hk : 1 ≤ k) (hbp : 1 ≤ bp) (n : Nat) (s t : State)
+    (h : ∃ d, ShB bp k d s t) (hok : OkRun F n s t) (s' : State)
+    (hs : exec (loopF F n) s = (.ok (some ()), s')) (hna : s'.err ≠ some .aborted) :
+    ∃ m s0, m < n ∧ runSteps F m s = some (.next, s0) ∧ exec (step F) s0 = (.ok .ret, s') ∧
+      ∀ r0 t0, runSteps F m t = some (r0, t0) → r0 = .next ∧
+        ∀ r' t', exec (step F) t0 = (.ok r', t') → EndQ bp k r' s' t' :=
+  UgoVerif.Proofs.Shift.invoke_loop_partial F hk hbp n s t h hok s' hs hna
+
+/-- **host_loop_of_loop.**  The host-aware loop `loopI` (VM/Invoke.lean: the loop of a VM whose globals may hold Go
+    functions) of a child whose loop ends normally is that loop: an instruction that ends normally is never the call of
+    a host function (`xOpCallObject` of a host object is outside `step`). -/
+theorem host_loop_of_loop (F : FloatOps) (cfg : HostCfg) (root : State) (rc : ChildRun) (n : Nat) (w : World) (s s' : State)
+    (h : exec (loopF F n) s = (.ok (some ()), s')) : loopI F cfg root rc n w s = (.ok (some ()), w, s') :=
+  loopI_of_loopF F cfg root rc n w s s' h
+
+/-- **epilogue_error.**  `Run` after a loop that ended with `vm.err = e` returns `e` (what `Invoke` hands to Go). -/
+theorem epilogue_error (s : State) (e : VmErr) (herr : s.err = some e) :
+    (runFrom.finish (exec clearCurrentFrame s).2).1 = .error e := finish_error s e herr
+
+/-! ### one invocation that returns a value: `C14_full` with its restrictions named -/
+
+def pushArgs (fa : Addr) (args : List V) : M Unit := do
+  pushV (.cfun fa)
+  for a in args do pushV a
+
+/-- only stack and sp differ from `s` -/
+def StackOnly (s u : State) : Prop := u = { s with stack := u.stack, sp := u.sp }
+
+theorem keeps_pushV_so (s : State) (v : V) : Keeps (StackOnly s) (pushV v) := by
+  unfold pushV stackSet setSp getSp
+  refine Keeps.bind (Keeps.bind Keeps.getS (fun _ => Keeps.pure _)) (fun sp => ?_)
+  refine Keeps.bind ?_ (fun _ => ?_)
+  · split
+    · exact Keeps.panic _
+    · exact Keeps.modS (fun u h => by unfold StackOnly at h ⊢; rw [h])
+  · exact Keeps.modS (fun u h => by unfold StackOnly at h ⊢; rw [h])
+
+theorem pushArgs_frame (fa : Addr) (args : List V) (s p : State) (h : exec (pushArgs fa args) s = (.ok (), p)) :
+    StackOnly s p := by
+  have hk : Keeps (StackOnly s) (pushArgs fa args) := by
+    unfold pushArgs
+    refine Keeps.bind (keeps_pushV_so s _) (fun _ => ?_)
+    refine Keeps.bind (Keeps.forIn_list _ _ _ (fun a b => Keeps.bind (keeps_pushV_so s a) (fun _ => Keeps.pure _))) (fun _ => Keeps.pure _)
+  have := hk.elim s rfl
+  rw [h] at this
+  exact this
+
+theorem inScriptCall_eq (F : FloatOps) (fuel : Nat) (s : State) (fa : Addr) (args : List V) (p p0 : State)
+    (h1 : exec (pushArgs fa args) s = (.ok (), p)) (h2 : exec (callCompiled fa args.length 0) p = (.ok (.ok ()), p0)) :
+    inScriptCall F fuel s fa args = inScriptCall.go F s.frameIndex fuel p0 := by
+  unfold inScriptCall
+  have h1' : StateT.run (ExceptT.run (pushArgs fa args)) s = (.ok (), p) := h1
+  unfold pushArgs at h1'
+  simp only [h1']
+  have h2' : StateT.run (ExceptT.run (callCompiled fa (↑args.length) 0)) p = (.ok (.ok ()), p0) := h2
+  simp only [h2']
+
+theorem runSteps_globals (F : FloatOps) : ∀ (n : Nat) (s : State) (r : Ctl) (s' : State),
+    runSteps F n s = some (r, s') → s'.globals = s.globals := by
+  intro n
+  induction n with
+  | zero =>
+    intro s r s' h
+    simp only [runSteps, Option.some.injEq, Prod.mk.injEq] at h
+    rw [← h.2]
+  | succ n ih =>
+    intro s r s' h
+    simp only [runSteps] at h
+    have hk := (gkeeps_step (G := s.globals) F).elim s rfl
+    rcases e1 : exec (step F) s with ⟨r1, s1⟩
+    rw [e1] at h hk
+    cases r1 with
+    | error e => simp at h
+    | ok c =>
+      cases c with
+      | ret =>
+        simp only [Option.some.injEq, Prod.mk.injEq] at h
+        rw [← h.2]; exact hk
+      | next =>
+        simp only at h
+        rw [ih s1 r s' h]; exact hk
+
+theorem runSteps_prefix (F : FloatOps) : ∀ (m : Nat) (s sm : State), runSteps F m s = some (.next, sm) →
+    ∀ j, j ≤ m → ∃ sj, runSteps F j s = some (.next, sj) := by
+  intro m
+  induction m with
+  | zero =>
+    intro s sm h j hj
+    have : j = 0 := by omega
+    subst this
+    exact ⟨s, rfl⟩
+  | succ m ih =>
+    intro s sm h j hj
+    cases j with
+    | zero => exact ⟨s, rfl⟩
+    | succ j =>
+      simp only [runSteps] at h ⊢
+      rcases e1 : exec (step F) s with ⟨r1, s1⟩
+      rw [e1] at h
+      cases r1 with
+      | error e => simp at h
+      | ok c =>
+        cases c with
+        | ret => simp at h
+        | next =>
+          simp only at h ⊢
+          exact ih s1 sm h j (by omega)
+
+/-- the in-script run over `m` instructions that all continue above the caller's frame -/
+theorem go_of_steps (F : FloatOps) (base : Int) : ∀ (m fuel : Nat) (t tm : State), runSteps F m t = some (.next, tm) →
+    (∀ j tj, 1 ≤ j → j ≤ m → runSteps F j t = some (.next, tj) → base < tj.frameIndex) →
+    inScriptCall.go F base (m + fuel) t = inScriptCall.go F base fuel tm := by
+  intro m
+  induction m with
+  | zero =>
+    intro fuel t tm h _
+    simp only [runSteps, Option.some.injEq, Prod.mk.injEq] at h
+    rw [← h.2, Nat.zero_add]
+  | succ m ih =>
+    intro fuel t tm h hfi
+    simp only [runSteps] at h
+    rcases e1 : exec (step F) t with ⟨r1, t1⟩
+    rw [e1] at h
+    cases r1 with
+    | error e => simp at h
+    | ok c =>
+      cases c with
+      | ret => simp at h
+      | next =>
+        simp only at h
+        have e : m + 1 + fuel = (m + fuel) + 1 := by omega
+        rw [e, inScriptCall.go]
+        have e1' : StateT.run (ExceptT.run (step F)) t = (.ok .next, t1) := e1
+        simp only [e1']
+        have h1 : base < t1.frameIndex := hfi 1 t1 (by omega) (by omega) (by simp only [runSteps, e1])
+        have h1' : ¬ t1.frameIndex ≤ base := by omega
+        rw [if_neg h1']
+        refine ih fuel t1 tm h ?_
+        intro j tj hj1 hj2 hr
+        refine hfi (j + 1) tj (by omega) (by omega) ?_
+        simp only [runSteps, e1]
+        exact hr
+
+theorem iterInvoke_one (rc : ChildRun) (cfg : HostCfg) (rootNow s : State) (fa : Addr) (args : List V) (fuel : Nat)
+    (w w1 w2 : World) (out : Outcome) (child child' : State)
+    (hacq : poolAcquire w { rootNow with modules := if s.modules.size ≥ s.numModules then s.modules else #[] } s fa cfg.pooled
+      = (child, w1))
+    (hab : child.abort = false)
+    (hrun : rc fuel w1 s.globals args child = (out, w2, child')) :
+    ∃ w', iterInvoke rc cfg rootNow fa args fuel false 1 w s none [] = (invResOf out, w', mergeBack s child') := by
+  simp only [iterInvoke, hacq, hab, Bool.false_eq_true, if_false, hrun]
+  cases h : invResOf out with
+  | value v =>
+    simp only
+    by_cases hr : cfg.reuse = true
+    · simp only [hr, if_true, iterInvoke, List.nil_append, Bool.false_eq_true, if_false]
+      exact ⟨_, rfl⟩
+    · simp only [hr, if_false, iterInvoke, List.nil_append, Bool.false_eq_true]
+      exact ⟨_, rfl⟩
+  | error e => exact ⟨_, rfl⟩
+  | goPanic m => exact ⟨_, rfl⟩
+  | stop o => exact ⟨_, rfl⟩
+
+theorem runSteps_snoc (F : FloatOps) : ∀ (m : Nat) (t tm : State), runSteps F m t = some (.next, tm) →
+    runSteps F (m + 1) t = (match exec (step F) tm with
+      | (.ok .next, t') => some (.next, t')
+      | (.ok .ret, t') => some (.ret, t')
+      | (.error _, _) => none) := by
+  intro m
+  induction m with
+  | zero =>
+    intro t tm h
+    simp only [runSteps, Option.some.injEq, Prod.mk.injEq] at h
+    rw [← h.2]
+    simp only [runSteps]
+    rcases exec (step F) t with ⟨r, t'⟩
+    cases r with
+    | error e => rfl
+    | ok c => cases c <;> rfl
+  | succ m ih =>
+    intro t tm h
+    simp only [runSteps] at h
+    rcases e1 : exec (step F) t with ⟨r1, t1⟩
+    rw [e1] at h
+    cases r1 with
+    | error e => simp at h
+    | ok c =>
+      cases c with
+      | ret => simp at h
+      | next =>
+        simp only at h
+        have := ih t1 tm h
+        conv => lhs; unfold runSteps
+        simp only [e1]
+        exact this
+
+theorem finish_value_state (s : State) (herr : s.err = none) (hsp : 1 ≤ s.sp ∧ s.sp < (stackSize : Int))
+    (hnb : ∀ a, s.stack[(s.sp - 1).toNat]! ≠ .box a) :
+    runFrom.finish (exec clearCurrentFrame s).2 = (.value (s.stack[(s.sp - 1).toNat]!), (exec clearCurrentFrame s).2) := by
+  have e : (exec clearCurrentFrame s).2 =
+      { s with frames := s.frames.modify s.curFrame (fun f => { f with free := none, fn := none, handlers := none }) } := rfl
+  unfold runFrom.finish
+  have h1 : (exec clearCurrentFrame s).2.err = none := by rw [e]; exact herr
+  have h2 : (exec clearCurrentFrame s).2.sp < (stackSize : Int) := by rw [e]; exact hsp.2
+  rw [h1]
+  simp only [h2, if_true]
+  have hsp' : 1 ≤ s.sp ∧ s.sp ≤ (stackSize : Int) := ⟨hsp.1, by have := hsp.2; omega⟩
+  have hv := resultValue_of_slot (exec clearCurrentFrame s).2 (by rw [e]; exact hsp')
+    (by rw [e]; exact hnb)
+  have hr' : resultValue.run.run (exec clearCurrentFrame s).2 = _ := hv
+  rw [hr']
+  rw [e]
+
+theorem poolAcquire_fresh (w : World) (root' s : State) (fa : Addr) (pooled : Bool)
+    (hw : ∀ c ∈ w.idle, ∃ u, c = releaseVM u) :
+    ∃ w1, poolAcquire w root' s fa pooled = (acquireFrom root' s (zeroVM s) fa, w1) := by
+  unfold poolAcquire
+  cases pooled with
+  | false => exact ⟨w, rfl⟩
+  | true =>
+    simp only [if_true]
+    cases h : w.idle with
+    | nil => exact ⟨w, rfl⟩
+    | cons c rest =>
+      obtain ⟨u, rfl⟩ := hw c (by simp [h])
+      exact ⟨{ w with idle := rest }, by simp [pool_fresh]⟩
+
+theorem zeroVM_shape (s : State) : Shape (zeroVM s) := ⟨by simp [zeroVM], by simp [zeroVM, emptyFrames]⟩
+
+set_option maxHeartbeats 1600000 in
+/-- **C14_value_restricted** (the statement of `C14_full`, for one invocation that RETURNS a value, with its
+    restrictions named).  `s` is the VM that runs the Go function; the Go side does
+    `NewInvoker(vm, f).Invoke(args…)` — any configuration `cfg` (pooled or not, reuse or not), any pool history `w`
+    that holds released VMs only, at any invocation depth ≥ 1; the script side pushes `f` and `args` (state `p`) and
+    executes `CALL #args 0`, then runs until the frame index is back.  Hypotheses, all explicit:
+    * the root's constants / module count are the caller's, the caller's module cache is complete (it is inside `Run`);
+    * `p` satisfies the entry conditions of `prologue_eq_callbind` (accepted arity, the caller is not `f` itself in tail
+      position, room for the frame and the locals);
+    * the child's loop `loopF` ends normally (`hloop`: no Go panic, nothing outside the model — hence no call of a host
+      function and no builtin outside the modelled ones — within `fuel` instructions) with `vm.err = nil` (`hret`: the
+      function returned), the result is not a raw `*ObjectPtr` (`hnb`) and `sp < StackSize` (`hspl`: `Run` answers
+      ErrStackOverflow otherwise — a function with 2047 locals);
+    * every instruction met satisfies `StepOk` / `CallRoom` (`hok`: no spread calls; the parent has a free frame at
+      every call) and the parent does not panic / leave the model (`hpar`) — at the stack limit the child has more room.
+    Then `Invoke` returns the value `v` that the in-script call leaves in the call's slot, and heap, globals and module
+    cache of the two final states are equal. -/
+theorem C14_value_restricted (F : FloatOps) (cfg : HostCfg) (root s p : State) (w : World) (fa ci : Nat)
+    (free : Option (List Addr)) (args : List V) (dpt fuel : Nat)
+    (hw : ∀ c ∈ w.idle, ∃ u, c = releaseVM u)
+    (hrc : root.consts = s.consts) (hrn : root.numModules = s.numModules) (hshared : s.numModules ≤ s.modules.size)
+    (hpush : exec (pushArgs fa args) s = (.ok (), p))
+    (hfn : p.heap[fa]? = some (.fn ci free)) (hg : p.globals ≠ .nil) (herr : p.err = none) (hshp : Shape p)
+    (hargs : argsOnStack p args.length = args)
+    (hacc : accepted (p.codes[ci]!).numParams (p.codes[ci]!).variadic args.length)
+    (hself : (p.frames[p.curFrame]!).fn ≠ some fa)
+    (hfi : 1 ≤ p.frameIndex ∧ p.frameIndex + 1 ≤ (frameSize : Int) - 1)
+    (hbp : 1 ≤ p.sp - args.length) (hsp : p.sp ≤ (stackSize : Int))
+    (hroom : p.sp - args.length + (p.codes[ci]!).numLocals ≤ (stackSize : Int))
+    (hnl : (p.codes[ci]!).numParams ≤ (p.codes[ci]!).numLocals)
+    (c0 p0 c1 : State)
+    (hc0 : exec (prologue s.globals args) (acquireFrom { root with modules := s.modules } s (zeroVM s) fa) = (.ok (), c0))
+    (hp0 : exec (callCompiled fa args.length 0) p = (.ok (.ok ()), p0))
+    (hloop : exec (loopF F fuel) c0 = (.ok (some ()), c1))
+    (hok : OkRun F fuel c0 p0)
+    (hpar : ∀ j, j ≤ fuel → runSteps F j p0 ≠ none)
+    (hret : c1.err = none) (hspl : c1.sp < (stackSize : Int)) (hnb : ∀ a, c1.stack[(c1.sp - 1).toNat]! ≠ .box a) :
+    ∃ v w' s' sIn,
+      iterInvoke (runAt F cfg root (dpt + 1)) cfg root fa args fuel false 1 w s none [] = (.value v, w', s') ∧
+      inScriptCall F fuel s fa args = (.ok v, sIn) ∧
+      s'.heap = sIn.heap ∧ s'.globals = sIn.globals ∧ s'.modules = sIn.modules := by
+  have hso := pushArgs_frame fa args s p hpush
+  unfold StackOnly at hso
+  have hph : p.heap = s.heap := by rw [hso]
+  have hpc : p.codes = s.codes := by rw [hso]
+  have hpk : p.consts = s.consts := by rw [hso]
+  have hpm : p.modules = s.modules := by rw [hso]
+  have hpn : p.numModules = s.numModules := by rw [hso]
+  have hpg : p.globals = s.globals := by rw [hso]
+  have hpf : p.frameIndex = s.frameIndex := by rw [hso]
+  -- the two entries
+  obtain ⟨c0', p0', h1, h2, hsh, _⟩ := prologue_eq_callbind
+    (acquireFrom { root with modules := s.modules } s (zeroVM s) fa) p fa ci free args hfn
+    (by rw [hph]; rfl) (by rw [hpc]; rfl) (by rw [hpk]; exact hrc) (by rw [hpm]; rfl) (by rw [hpn]; exact hrn) rfl
+    (by rw [hpn, hpm]; exact hshared) hg herr ⟨(zeroVM_shape s).stack, (zeroVM_shape s).frames⟩ hshp hargs hacc hself ⟨by omega, hfi.2⟩ (by omega) hsp hroom hnl
+  rw [hpg, hc0] at h1
+  rw [hp0] at h2
+  simp only [Prod.mk.injEq, Except.ok.injEq] at h1 h2
+  obtain ⟨_, rfl⟩ := h1
+  obtain ⟨_, rfl⟩ := h2
+  -- the child's loop
+  obtain ⟨m, cm, hm, hcm, hlast, hparent⟩ := UgoVerif.Proofs.Shift.invoke_loop_partial F (by omega) (by omega) fuel c0 p0 ⟨0, hsh⟩ hok c1 hloop
+    (by rw [hret]; simp)
+  -- the parent after m instructions
+  rcases hpm' : runSteps F m p0 with _ | ⟨r0, pm⟩
+  · exact absurd hpm' (hpar m (by omega))
+  obtain ⟨hr0, hfin⟩ := hparent r0 pm hpm'
+  subst hr0
+  have hsn := runSteps_snoc F m p0 pm hpm'
+  rcases e1 : exec (step F) pm with ⟨r1, p'⟩
+  rw [e1] at hsn
+  cases r1 with
+  | error e => exact absurd hsn (hpar (m + 1) (by omega))
+  | ok r' =>
+    have hend := hfin r' p' e1
+    rcases hend with hq | ⟨e, he, _⟩ | ⟨_, ⟨msg, he, _⟩, _⟩
+    rotate_left
+    · rw [hret] at he; cases he
+    · rw [hret] at he; cases he
+    obtain ⟨_, hr', hh, hgl, hmo, _, _, _, hfk, hspk, hsp1, hval, hsz⟩ := hq
+    subst hr'
+    -- the Invoker side
+    obtain ⟨w1, hacq⟩ := poolAcquire_fresh w { root with modules := s.modules } s fa cfg.pooled hw
+    have hfv := finish_value_state c1 hret ⟨hsp1, hspl⟩ hnb
+    have hrun : runAt F cfg root (dpt + 1) fuel w1 s.globals args (acquireFrom { root with modules := s.modules } s (zeroVM s) fa) =
+        (.value (c1.stack[(c1.sp - 1).toNat]!), w1, (exec clearCurrentFrame c1).2) := by
+      show runWithW F cfg root (runAt F cfg root dpt) fuel w1 s.globals args _ = _
+      rw [runWithW_of_loop F cfg root _ fuel w1 s.globals args _ c0 c1 hc0 hloop, hfv]
+    have hshr : (if s.modules.size ≥ s.numModules then s.modules else #[]) = s.modules := by
+      rw [if_pos hshared]
+    obtain ⟨w', hit⟩ := iterInvoke_one (runAt F cfg root (dpt + 1)) cfg root s fa args fuel w w1 w1 _ _ _
+      (by rw [hshr]; exact hacq) rfl hrun
+    refine ⟨c1.stack[(c1.sp - 1).toNat]!, w', _, p', hit, ?_, ?_, ?_, ?_⟩
+    · -- the in-script side
+      rw [inScriptCall_eq F fuel s fa args p p0 hpush hp0]
+      have ef : fuel = m + ((fuel - m - 1) + 1) := by omega
+      rw [ef, go_of_steps F s.frameIndex m _ p0 pm hpm' ?_]
+      · rw [inScriptCall.go]
+        have e1' : StateT.run (ExceptT.run (step F)) pm = (.ok .next, p') := e1
+        simp only [e1']
+        have hle : p'.frameIndex ≤ s.frameIndex := by rw [hfk, ← hpf]; omega
+        rw [if_pos hle]
+        have hidx : (p'.sp - 1).toNat < p'.stack.size := by
+          rw [hsz, hspk]
+          have : (0 : Int) ≤ p.sp - args.length := by omega
+          simp only [stackSize] at hroom ⊢
+          omega
+        rw [Array.getElem?_eq_getElem hidx]
+        simp only
+        rw [hval, getElem!_pos p'.stack _ hidx]
+      · intro j tj hj1 hj2 hr
+        obtain ⟨cj, hcj⟩ := runSteps_prefix F m c0 cm hcm j hj2
+        have ej : fuel = j + (fuel - j) := by omega
+        rw [ej] at hok
+        obtain ⟨_, ⟨d, H, N, a, hd, _, _⟩, _⟩ := UgoVerif.Proofs.Shift.steps_shift F (by omega) (by omega) j (fuel - j) c0 p0 ⟨0, hsh⟩ hok cj hcj .next tj hr
+        have := hd.fiT
+        rw [← hpf]
+        omega
+    · show c1.heap = p'.heap
+      exact hh
+    · show s.globals = p'.globals
+      have g1 := runSteps_globals F (m + 1) p0 .next p' (by rw [hsn])
+      have g2 := (gkeeps_callCompiled (G := p.globals) fa args.length 0).elim p rfl
+      rw [hp0] at g2
+      rw [g1, g2, hpg]
+    · show (if s.modules.size ≥ s.numModules then c1.modules else s.modules) = p'.modules
+      rw [if_pos hshared]
+      exact hmo
 
 end UgoVerif.Props.C14
